@@ -1,16 +1,23 @@
-// Command c08 drives the REAL waddrmgr through random histories of database
-// transactions (1-3 manager operations each; committed, aborted by the caller,
-// aborted as a dry run, or with a failing commit) and, after EVERY
-// transaction, copies the database file, opens the copy with a fresh
-// waddrmgr.Open and asks the running and the fresh manager the same questions.
+// Command c08 drives the REAL waddrmgr (and, in wallet mode, the real
+// wallet.Wallet) through histories of database transactions (1-3 manager
+// operations each; committed, aborted by the caller, aborted as a dry run, or
+// with a failing commit; Lock / Unlock / InvalidateAccountCache in between)
+// and, after EVERY transaction, copies the database file, opens the copy with
+// a fresh waddrmgr.Open, brings it to the lock state of the running manager
+// and asks the running and the fresh manager the same questions.
 //
 // Output: one JSON object per history
 //
 //	{"in": history, "obs": per-op outcomes + per-boundary (query, running, fresh),
-//	 "oracle": ["kind@site", ...], "findings": [...], "tags": [...]}
+//	 "oracle": ["kind@site", ...], "findings": [...], "tags": [...], "problems": [...]}
 //
 // The oracle is the property stated directly on the implementation: the running
 // manager and a manager freshly opened on the same database answer alike.
+//
+// Files: main.go (history and answer types, address tables, opening managers
+// and wallets, running one operation), run.go (one history: boundaries,
+// queries), sites.go (the oracle: what diverges and at which site), gen.go
+// (start-up probes, generators, the systematic histories, main).
 package main
 
 import (
@@ -22,8 +29,6 @@ import (
 	"fmt"
 	"os"
 	"path/filepath"
-	"sort"
-	"strings"
 	"time"
 
 	"github.com/btcsuite/btcd/btcec/v2"
@@ -35,7 +40,6 @@ import (
 	"github.com/btcsuite/btcd/txscript"
 	"github.com/btcsuite/btcd/wire"
 	"github.com/btcsuite/btcwallet/chain"
-	"github.com/btcsuite/btcwallet/snacl"
 	"github.com/btcsuite/btcwallet/waddrmgr"
 	"github.com/btcsuite/btcwallet/wallet"
 	"github.com/btcsuite/btcwallet/walletdb"
@@ -43,8 +47,6 @@ import (
 	"github.com/btcsuite/btcwallet/wtxmgr"
 
 	"verifharness/internal/abortdb"
-	"verifharness/internal/core"
-	"verifharness/internal/gen"
 )
 
 // ---------------------------------------------------------------- history
@@ -71,9 +73,14 @@ type op struct {
 	// type overriding the scope's schema
 	Fp  uint32   `json:"fp,omitempty"`
 	Sch []uint32 `json:"sch,omitempty"`
-	// wallet mode only: the wallet API that performs the issuance -
-	// newaddress | newchange | createtx | createtxdry
+	// wallet mode only: the wallet API that performs the operation -
+	// newaddress | newchange | createtx | createtxdry (one issuance), or
+	// importacct | importdry on the FIRST op of a transaction whose ops spell
+	// out what wallet.ImportAccount / ImportAccountDryRun do to the manager
 	Via string `json:"via,omitempty"`
+	// Sc selects the key scope the op addresses in a two-scope history
+	// (0: input.Scope, 1: input.Scope2); root-manager ops ignore it
+	Sc int `json:"sc,omitempty"`
 }
 
 type txIn struct {
@@ -86,7 +93,11 @@ type input struct {
 	// Wallet: the history is driven through wallet.Wallet (NewAddress,
 	// NewChangeAddress, CreateSimpleTx with and without dryRun) instead of
 	// the address manager; every transaction then holds one issuance.
-	Wallet bool   `json:"wallet,omitempty"`
+	Wallet bool `json:"wallet,omitempty"`
+	// Scope2: a second key scope of the same manager (0: none); ops choose
+	// with Sc.  Both scoped managers share the database transaction, the
+	// root manager's sync state, birthday and lock state.
+	Scope2 uint32 `json:"scope2,omitempty"`
 	Txs    []txIn `json:"txs"`
 }
 
@@ -115,6 +126,12 @@ type answer struct {
 	WO  bool     `json:"wo"`
 	Key int      `json:"key"`
 	Sch []uint32 `json:"sch"`
+	// addr / last: DerivationInfo() = (ok, key scope, full path) and the
+	// serialized PubKey() of a ManagedPubKeyAddress.  Functions of the address
+	// identity in the model; compared between running and restarted manager.
+	DI   bool     `json:"di,omitempty"`
+	Path []uint32 `json:"path,omitempty"` // purpose, coin, InternalAccount, Account, Branch, Index
+	Pub  string   `json:"pub,omitempty"`
 }
 
 func (a answer) key() string { b, _ := json.Marshal(a); return string(b) }
@@ -135,7 +152,8 @@ type initObs struct {
 	H        int32     `json:"h"`
 	T        int64     `json:"t"`
 	Birthday int64     `json:"birthday"`
-	Sch      [2]uint32 `json:"sch"` // the scope's address schema: external, internal address type
+	Sch      [2]uint32 `json:"sch"`            // the scope's address schema: external, internal address type
+	Sch2     [2]uint32 `json:"sch2,omitempty"` // ... of the second scope
 }
 
 type obsT struct {
@@ -159,6 +177,9 @@ type caseOut struct {
 	Oracle   []string  `json:"oracle"`
 	Findings []finding `json:"findings"`
 	Tags     []string  `json:"tags"`
+	// Problems: conditions under which this run cannot vouch for the tie
+	// between model and code (never a tag: lib/c08.py fails the check on any)
+	Problems []string `json:"problems"`
 }
 
 // ---------------------------------------------------------------- fixtures
@@ -349,13 +370,11 @@ func (w *world) xpubIndex(k *hdkeychain.ExtendedKey) int {
 	return -1
 }
 
-var worlds = map[uint32]*world{}
-
 // newWorld returns the table of one scope (memoised, with every chained
 // address of the small universe entered) with a fresh per-history overlay for
 // imported accounts.
-func newWorld(scope uint32) (*world, error) {
-	base, err := baseWorld(scope)
+func newWorld(e *env, scope uint32) (*world, error) {
+	base, err := e.baseWorld(scope)
 	if err != nil {
 		return nil, err
 	}
@@ -365,8 +384,8 @@ func newWorld(scope uint32) (*world, error) {
 	return &w, nil
 }
 
-func baseWorld(scope uint32) (*world, error) {
-	if w, ok := worlds[scope]; ok {
+func (e *env) baseWorld(scope uint32) (*world, error) {
+	if w, ok := e.worlds[scope]; ok {
 		return w, nil
 	}
 	w, err := buildWorld(scope)
@@ -382,7 +401,7 @@ func baseWorld(scope uint32) (*world, error) {
 			}
 		}
 	}
-	worlds[scope] = w
+	e.worlds[scope] = w
 	return w, nil
 }
 
@@ -533,17 +552,40 @@ func (w *world) refOf(a btcutil.Address) []uint32 {
 
 // ---------------------------------------------------------------- database
 
+// env is what one worker runs histories in: its own scratch directory and its
+// own address tables (they memoise on demand); the pristine database images
+// are shared, read-only.
 type env struct {
-	dir  string
-	base map[uint32][]byte // pristine database image (one manager, all default scopes)
+	dir    string
+	base   map[uint32][]byte // pristine database image (one manager, all default scopes)
+	worlds map[uint32]*world
+}
+
+// worker returns an env for another goroutine: same images, own directory and tables.
+func (e *env) worker(i int) (*env, error) {
+	dir := filepath.Join(e.dir, fmt.Sprintf("w%d", i))
+	if err := os.MkdirAll(dir, 0700); err != nil {
+		return nil, err
+	}
+	return &env{dir: dir, base: e.base, worlds: map[uint32]*world{}}, nil
 }
 
 func newEnv() (*env, error) {
-	dir, err := os.MkdirTemp("", "vh-c08-")
+	// scratch databases live in memory when the machine offers it: every
+	// commit of bbolt is an fsync, thousands per run (durability is not what
+	// this check is about - the database is fault-free here)
+	scratch := ""
+	if st, err := os.Stat("/dev/shm"); err == nil && st.IsDir() {
+		scratch = "/dev/shm"
+	}
+	dir, err := os.MkdirTemp(scratch, "vh-c08-")
+	if err != nil && scratch != "" {
+		dir, err = os.MkdirTemp("", "vh-c08-")
+	}
 	if err != nil {
 		return nil, err
 	}
-	e := &env{dir: dir, base: map[uint32][]byte{}}
+	e := &env{dir: dir, base: map[uint32][]byte{}, worlds: map[uint32]*world{}}
 	path := filepath.Join(dir, "base.db")
 	db, err := walletdb.Create("bdb", path, true, time.Minute, false)
 	if err != nil {
@@ -594,7 +636,25 @@ type inst struct {
 	db  *abortdb.DB
 	mgr *waddrmgr.Manager
 	sm  *waddrmgr.ScopedKeyManager
-	w   *wallet.Wallet // wallet mode: the manager is the wallet's
+	sm2 *waddrmgr.ScopedKeyManager // second scope of a two-scope history
+	w   *wallet.Wallet             // wallet mode: the manager is the wallet's
+}
+
+func (in *inst) scoped(sc int) *waddrmgr.ScopedKeyManager {
+	if sc == 1 && in.sm2 != nil {
+		return in.sm2
+	}
+	return in.sm
+}
+
+// worlds2 are the address tables of the (one or two) scopes of a history.
+type worlds2 [2]*world
+
+func (ws worlds2) of(sc int) *world {
+	if sc == 1 && ws[1] != nil {
+		return ws[1]
+	}
+	return ws[0]
 }
 
 // fakeChain is the least chain backend CreateSimpleTx and NewAddress need.
@@ -730,7 +790,82 @@ func (in *inst) walletCall(w *world, o op) answer {
 	return answer{K: "addrs", Addrs: [][]uint32{w.refOf(addr)}}
 }
 
-func openInst(path string, scope waddrmgr.KeyScope, unlock bool) (*inst, error) {
+func propsAns(w *world, p *waddrmgr.AccountProperties) answer {
+	out := answer{K: "props", Name: nameID(p.AccountName), Ext: p.ExternalKeyCount,
+		IntN: p.InternalKeyCount, Imp: p.ImportedKeyCount, WO: p.IsWatchOnly, Fp: p.MasterKeyFingerprint}
+	if p.AddrSchema != nil {
+		out.Sch = []uint32{uint32(p.AddrSchema.ExternalAddrType), uint32(p.AddrSchema.InternalAddrType)}
+	}
+	// imported account: its key is one of the xpubs the harness imports
+	// (a default account reports its own account key: -1)
+	out.Key = w.xpubIndex(p.AccountPubKey)
+	return out
+}
+
+// walletImport performs wallet.ImportAccount / wallet.ImportAccountDryRun for
+// a transaction whose ops spell out what these do to the address manager:
+//
+//	importacct: newacctwo, props                                        (committed)
+//	importdry:  newacctwo, props, next ext N, next int N, props, invalidate  (always rolled back)
+//
+// and returns the outcomes the wallet lets a caller see ({"k":"any"} where it
+// does not).  A shorter result means the call failed at its first step.
+func (in *inst) walletImport(w *world, t *txIn) ([]answer, error) {
+	o := t.Ops[0]
+	any := answer{K: "any"}
+	if o.K != "newacctwo" || o.Key < 0 || o.Key >= nXpubs || o.Sch != nil {
+		return nil, fmt.Errorf("bad wallet import %+v", o)
+	}
+	at := waddrmgr.AddressType(w.schema()[0]) // WitnessPubKey: scope BIP0084, the scope's own schema
+	switch o.Via {
+	case "importacct":
+		if len(t.Ops) != 2 || t.Ops[1].K != "props" {
+			return nil, fmt.Errorf("bad importacct transaction")
+		}
+		p, err := in.w.ImportAccount(nameOf(o.Name), w.xpubs[o.Key], o.Fp, &at)
+		if err != nil {
+			return []answer{errAns(err)}, nil
+		}
+		if p.AccountNumber != t.Ops[1].Acct {
+			return nil, fmt.Errorf("imported account got number %d, history says %d", p.AccountNumber, t.Ops[1].Acct)
+		}
+		if err := w.setWO(p.AccountNumber, o.Key, nil); err != nil {
+			return nil, err
+		}
+		return []answer{{K: "acct", Acct: p.AccountNumber}, propsAns(w, p)}, nil
+	case "importdry":
+		if len(t.Ops) != 6 || t.Ops[1].K != "props" || t.Ops[2].K != "next" || t.Ops[2].Int ||
+			t.Ops[3].K != "next" || !t.Ops[3].Int || t.Ops[2].N != t.Ops[3].N || t.Ops[4].K != "props" ||
+			t.Ops[5].K != "invalidate" {
+			return nil, fmt.Errorf("bad importdry transaction")
+		}
+		p, ext, int_, err := in.w.ImportAccountDryRun(nameOf(o.Name), w.xpubs[o.Key], o.Fp, &at, t.Ops[2].N)
+		if err != nil {
+			return []answer{errAns(err)}, nil
+		}
+		n := p.AccountNumber
+		if n != t.Ops[1].Acct {
+			return nil, fmt.Errorf("dry-run account got number %d, history says %d", n, t.Ops[1].Acct)
+		}
+		// the addresses are those of the imported key, whatever becomes of the number
+		if err := w.setWO(n, o.Key, nil); err != nil {
+			return nil, err
+		}
+		refs := func(mas []waddrmgr.ManagedAddress) answer {
+			a := answer{K: "addrs", Addrs: [][]uint32{}}
+			for _, ma := range mas {
+				a.Addrs = append(a.Addrs, w.refOf(ma.Address()))
+			}
+			return a
+		}
+		outs := []answer{{K: "acct", Acct: n}, any, refs(ext), refs(int_), propsAns(w, p), any}
+		w.unsetWO(n)
+		return outs, nil
+	}
+	return nil, fmt.Errorf("unknown wallet import %q", o.Via)
+}
+
+func openInst(path string, ws worlds2, unlock bool) (*inst, error) {
 	raw, err := walletdb.Open("bdb", path, true, time.Minute, false)
 	if err != nil {
 		return nil, err
@@ -748,7 +883,13 @@ func openInst(path string, scope waddrmgr.KeyScope, unlock bool) (*inst, error) 
 				return err
 			}
 		}
-		in.sm, err = m.FetchScopedKeyManager(scope)
+		in.sm, err = m.FetchScopedKeyManager(ws[0].scope)
+		if err != nil {
+			return err
+		}
+		if ws[1] != nil {
+			in.sm2, err = m.FetchScopedKeyManager(ws[1].scope)
+		}
 		return err
 	})
 	if err != nil {
@@ -808,9 +949,9 @@ func stampOf(o op) waddrmgr.BlockStamp {
 
 // apply runs one op of the history against a manager inside an open
 // transaction; rw is nil in a read transaction (write ops then fail).
-func apply(w *world, in *inst, rd walletdb.ReadBucket, rw walletdb.ReadWriteBucket, o op) (res answer) {
-	// a panicking call (ExtendAddresses on an imported account dereferences a
-	// nil key - finding S3) is an outcome, not the end of the history
+func apply(ws worlds2, in *inst, rd walletdb.ReadBucket, rw walletdb.ReadWriteBucket, o op) (res answer) {
+	// a panicking call is an outcome (one the model never predicts), not the
+	// end of the history
 	defer func() {
 		if p := recover(); p != nil {
 			res = answer{K: "err", Err: "panic"}
@@ -823,8 +964,21 @@ func apply(w *world, in *inst, rd walletdb.ReadBucket, rw walletdb.ReadWriteBuck
 		}
 		return nil
 	}
-	sm, m := in.sm, in.mgr
+	w, sm, m := ws.of(o.Sc), in.scoped(o.Sc), in.mgr
 	switch o.K {
+	case "lock":
+		if err := m.Lock(); err != nil {
+			return errAns(err)
+		}
+		return answer{K: "ok"}
+	case "unlock":
+		if err := m.Unlock(rd, privPass); err != nil {
+			return errAns(err)
+		}
+		return answer{K: "ok"}
+	case "invalidate":
+		sm.InvalidateAccountCache(o.Acct)
+		return answer{K: "ok"}
 	case "newacct":
 		if a := needW(); a != nil {
 			return *a
@@ -999,11 +1153,7 @@ func apply(w *world, in *inst, rd walletdb.ReadBucket, rw walletdb.ReadWriteBuck
 		}
 		out := answer{K: "addr", Ref: w.refOf(ma.Address()), Acct: ma.InternalAccount(),
 			Internal: ma.Internal(), Imported: ma.Imported(), Used: ma.Used(rd), Ty: uint32(ma.AddrType())}
-		if pk, ok := ma.(waddrmgr.ManagedPubKeyAddress); ok {
-			if _, dp, ok := pk.DerivationInfo(); ok {
-				out.Fp = dp.MasterKeyFingerprint
-			}
-		}
+		derivation(ma, &out)
 		return out
 	case "last":
 		var ma waddrmgr.ManagedAddress
@@ -1016,21 +1166,18 @@ func apply(w *world, in *inst, rd walletdb.ReadBucket, rw walletdb.ReadWriteBuck
 		if err != nil {
 			return errAns(err)
 		}
-		return answer{K: "last", Ref: w.refOf(ma.Address())}
+		if ma == nil {
+			return answer{K: "err", Err: "other:nil last address"}
+		}
+		out := answer{K: "last", Ref: w.refOf(ma.Address()), Ty: uint32(ma.AddrType())}
+		derivation(ma, &out)
+		return out
 	case "props":
 		p, err := sm.AccountProperties(rd, o.Acct)
 		if err != nil {
 			return errAns(err)
 		}
-		out := answer{K: "props", Name: nameID(p.AccountName), Ext: p.ExternalKeyCount,
-			IntN: p.InternalKeyCount, Imp: p.ImportedKeyCount, WO: p.IsWatchOnly, Fp: p.MasterKeyFingerprint}
-		if p.AddrSchema != nil {
-			out.Sch = []uint32{uint32(p.AddrSchema.ExternalAddrType), uint32(p.AddrSchema.InternalAddrType)}
-		}
-		if p.IsWatchOnly {
-			out.Key = w.xpubIndex(p.AccountPubKey)
-		}
-		return out
+		return propsAns(w, p)
 	case "lookupname":
 		n, err := sm.LookupAccount(rd, nameOf(o.Name))
 		if err != nil {
@@ -1070,6 +1217,22 @@ func apply(w *world, in *inst, rd walletdb.ReadBucket, rw walletdb.ReadWriteBuck
 	return answer{K: "err", Err: "other:unknown op " + o.K}
 }
 
+// derivation adds DerivationInfo() and PubKey() of a pubkey address.
+func derivation(ma waddrmgr.ManagedAddress, out *answer) {
+	pk, ok := ma.(waddrmgr.ManagedPubKeyAddress)
+	if !ok {
+		return
+	}
+	if ks, dp, ok := pk.DerivationInfo(); ok {
+		out.DI = true
+		out.Fp = dp.MasterKeyFingerprint
+		out.Path = []uint32{ks.Purpose, ks.Coin, dp.InternalAccount, dp.Account, dp.Branch, dp.Index}
+	}
+	if k := pk.PubKey(); k != nil {
+		out.Pub = fmt.Sprintf("%x", k.SerializeCompressed())
+	}
+}
+
 func isRead(k string) bool {
 	switch k {
 	case "lookup", "last", "props", "lookupname", "acctname", "lastacct", "synced", "blockhash", "birthday", "bdayblock":
@@ -1079,1254 +1242,3 @@ func isRead(k string) bool {
 }
 
 // ---------------------------------------------------------------- one history
-
-const importedAcct = waddrmgr.ImportedAddrAccount
-
-type runner struct {
-	e *env
-	w *world
-	r *inst // running manager
-	// what the harness knows (for the query domain and the generator)
-	issued  [][]uint32 // addresses returned by committed transactions
-	heights map[int32]bool
-	names   int // highest name id used so far
-	seenDiv map[string]bool
-	// site of the first divergence per subject
-	subjSite map[string]string
-	// address -> site of the rolled-back transaction that derived/imported it
-	phantomSite map[string]string
-	seq         int
-}
-
-func subjectOf(q op) string {
-	switch q.K {
-	case "props", "last", "acctname":
-		return fmt.Sprintf("acct:%d", q.Acct)
-	case "lookup":
-		return fmt.Sprintf("addr:%v", q.Addr)
-	case "synced", "blockhash":
-		return "sync"
-	}
-	return q.K
-}
-
-func (rn *runner) freshCopy() (*inst, string, error) {
-	rn.seq++
-	p := filepath.Join(rn.e.dir, fmt.Sprintf("fresh-%d.db", rn.seq))
-	f, err := os.Create(p)
-	if err != nil {
-		return nil, "", err
-	}
-	if err := rn.r.db.Copy(f); err != nil {
-		f.Close()
-		return nil, "", err
-	}
-	if err := f.Close(); err != nil {
-		return nil, "", err
-	}
-	// a restarted AND unlocked wallet: AccountProperties().IsWatchOnly of a default
-	// account depends on the lock state at the time the account was loaded
-	in, err := openInst(p, rn.w.scope, true)
-	return in, p, err
-}
-
-// queries builds the boundary query list from the FRESH manager's view of the
-// database (what a restarted wallet knows) and the harness' record of issued
-// addresses.
-func (rn *runner) queries(fr *inst) ([]op, error) {
-	var qs []op
-	var last uint32
-	nexts := map[[2]uint32]uint32{}
-	err := walletdb.View(fr.db, func(tx walletdb.ReadTx) error {
-		ns := tx.ReadBucket(nsKey)
-		var err error
-		last, err = fr.sm.LastAccount(ns)
-		if err != nil {
-			return err
-		}
-		for a := uint32(0); a <= last && a < maxAcct; a++ {
-			p, err := fr.sm.AccountProperties(ns, a)
-			if err != nil {
-				continue
-			}
-			nexts[[2]uint32{a, 0}] = p.ExternalKeyCount
-			nexts[[2]uint32{a, 1}] = p.InternalKeyCount
-		}
-		return nil
-	})
-	if err != nil {
-		return nil, err
-	}
-	top := last + 1
-	if top >= maxAcct {
-		top = maxAcct - 1
-	}
-	for a := uint32(0); a <= top; a++ {
-		qs = append(qs, op{K: "props", Acct: a}, op{K: "acctname", Acct: a},
-			op{K: "last", Acct: a}, op{K: "last", Acct: a, Int: true})
-	}
-	qs = append(qs, op{K: "props", Acct: importedAcct}, op{K: "acctname", Acct: importedAcct}, op{K: "lastacct"})
-	for n := 0; n <= rn.names+1; n++ {
-		qs = append(qs, op{K: "lookupname", Name: n})
-	}
-	// issued by committed transactions (most recent 16)
-	seen := map[[4]uint32]bool{}
-	add := func(ref []uint32) {
-		k := [4]uint32{ref[0], ref[1], ref[2], ref[3]}
-		if seen[k] || (ref[0] == 0 && ref[3] >= maxIdx) {
-			return
-		}
-		seen[k] = true
-		qs = append(qs, op{K: "lookup", Addr: ref})
-	}
-	from := 0
-	if len(rn.issued) > 16 {
-		from = len(rn.issued) - 16
-	}
-	for _, ref := range rn.issued[from:] {
-		add(ref)
-	}
-	// the last derived and the next three not-yet-issued indices per branch
-	for a := uint32(0); a <= last && a < maxAcct; a++ {
-		for b := uint32(0); b < 2; b++ {
-			nx, ok := nexts[[2]uint32{a, b}]
-			if !ok {
-				continue
-			}
-			lo := nx
-			if lo > 0 {
-				lo--
-			}
-			for i := lo; i < nx+3; i++ {
-				add([]uint32{0, a, b, i})
-			}
-		}
-	}
-	// the first indices of the first not-yet-created account
-	if last+1 < maxAcct {
-		add([]uint32{0, last + 1, 0, 0})
-		add([]uint32{0, last + 1, 1, 0})
-	}
-	for i := 0; i < nKeys; i++ {
-		add([]uint32{1, uint32(i), 0, 0})
-	}
-	for i := 0; i < nScripts; i++ {
-		add([]uint32{2, uint32(i), 0, 0})
-	}
-	qs = append(qs, op{K: "synced"}, op{K: "birthday"}, op{K: "bdayblock"})
-	hs := []int{}
-	for h := range rn.heights {
-		hs = append(hs, int(h))
-	}
-	sort.Ints(hs)
-	if len(hs) > 10 {
-		hs = hs[len(hs)-10:]
-	}
-	for _, h := range hs {
-		qs = append(qs, op{K: "blockhash", H: int32(h)})
-	}
-	return qs, nil
-}
-
-func (rn *runner) boundary() ([]qa, [][2]answer, error) {
-	fr, path, err := rn.freshCopy()
-	if err != nil {
-		return nil, nil, fmt.Errorf("fresh open: %w", err)
-	}
-	defer func() { fr.close(); os.Remove(path) }()
-	qs, err := rn.queries(fr)
-	if err != nil {
-		return nil, nil, err
-	}
-	// make sure every chained address asked about is in the table
-	for _, q := range qs {
-		if q.K == "lookup" {
-			if _, err := rn.w.addrOf(q.Addr); err != nil {
-				return nil, nil, err
-			}
-		}
-	}
-	out := make([]qa, 0, len(qs))
-	ra := make([]answer, len(qs))
-	fa := make([]answer, len(qs))
-	err = walletdb.View(rn.r.db, func(tx walletdb.ReadTx) error {
-		ns := tx.ReadBucket(nsKey)
-		for i, q := range qs {
-			ra[i] = apply(rn.w, rn.r, ns, nil, q)
-		}
-		return nil
-	})
-	if err != nil {
-		return nil, nil, err
-	}
-	err = walletdb.View(fr.db, func(tx walletdb.ReadTx) error {
-		ns := tx.ReadBucket(nsKey)
-		for i, q := range qs {
-			fa[i] = apply(rn.w, fr, ns, nil, q)
-		}
-		return nil
-	})
-	if err != nil {
-		return nil, nil, err
-	}
-	for i, q := range qs {
-		e := qa{Q: q, R: ra[i]}
-		if ra[i].key() != fa[i].key() {
-			f := fa[i]
-			e.F = &f
-		}
-		out = append(out, e)
-	}
-	return out, nil, nil
-}
-
-// divergence kinds: the violated clause, from the pair of answers.
-func divKinds(q op, r, f answer) []string {
-	var ks []string
-	switch q.K {
-	case "lookup":
-		chained := len(q.Addr) == 4 && q.Addr[0] == 0
-		switch {
-		case r.K == "addr" && f.K != "addr":
-			if chained {
-				ks = append(ks, "phantom_address")
-			} else {
-				ks = append(ks, "phantom_imported_address")
-			}
-		case r.K != "addr" && f.K == "addr":
-			ks = append(ks, "forgotten_address")
-		case r.K == "addr" && f.K == "addr":
-			if r.Used != f.Used {
-				ks = append(ks, "used_flag")
-			}
-			r.Used, f.Used = false, false
-			if r.key() != f.key() {
-				ks = append(ks, "address_metadata")
-			}
-		default:
-			ks = append(ks, "lookup_error")
-		}
-	case "props":
-		switch {
-		case r.K == "props" && f.K == "props":
-			if r.Name != f.Name {
-				ks = append(ks, "account_name")
-			}
-			if r.Ext != f.Ext || r.IntN != f.IntN {
-				ks = append(ks, "next_index")
-			}
-			if r.Imp != f.Imp {
-				ks = append(ks, "imported_count")
-			}
-			if r.WO != f.WO || r.Fp != f.Fp || r.Key != f.Key || fmt.Sprint(r.Sch) != fmt.Sprint(f.Sch) {
-				ks = append(ks, "account_kind")
-			}
-		default:
-			ks = append(ks, "account_existence")
-		}
-	case "last":
-		if r.K == "last" && f.K == "last" || r.Err == "ErrAddressNotFound" || f.Err == "ErrAddressNotFound" {
-			ks = append(ks, "last_address")
-		} else {
-			ks = append(ks, "account_existence")
-		}
-	case "synced":
-		ks = append(ks, "synced_to")
-	case "birthday":
-		ks = append(ks, "birthday")
-	default:
-		ks = append(ks, "disk_read_"+q.K)
-	}
-	return ks
-}
-
-// siteOf names the op pattern of the transaction after which a divergence of
-// the given kind first showed.
-func siteOf(kind string, t *txIn) string {
-	if t == nil {
-		return "before-any-transaction"
-	}
-	where := "-in-aborted-tx"
-	if t.Fate == "commit" {
-		where = "-in-committed-tx"
-	}
-	has := func(k string) bool {
-		for _, o := range t.Ops {
-			if o.K == k {
-				return true
-			}
-		}
-		return false
-	}
-	// newacct followed by an op that loads the (uncommitted) account row into the cache
-	newThenLoad := false
-	nextThenExtend := false
-	sawNew := false
-	sawNext := map[[2]uint32]bool{}
-	for _, o := range t.Ops {
-		b := uint32(0)
-		if o.Int {
-			b = 1
-		}
-		switch o.K {
-		case "newacct", "newacctwo":
-			sawNew = true
-		case "props", "last", "next", "extend", "lookup":
-			if sawNew {
-				newThenLoad = true
-			}
-		}
-		if o.K == "next" {
-			sawNext[[2]uint32{o.Acct, b}] = true
-		}
-		if o.K == "extend" && sawNext[[2]uint32{o.Acct, b}] {
-			nextThenExtend = true
-		}
-	}
-	pick := func(cands ...string) string {
-		for _, c := range cands {
-			switch c {
-			case "NewAccount+cached-read":
-				if newThenLoad {
-					return c + where
-				}
-			case "NextAddresses+ExtendAddresses":
-				if nextThenExtend {
-					return c + where
-				}
-			case "RenameAccount":
-				if has("rename") {
-					return c + where
-				}
-			case "ExtendAddresses":
-				if has("extend") {
-					return c + where
-				}
-			case "NextAddresses":
-				if has("next") {
-					return c + where
-				}
-			case "SetSyncedTo":
-				if has("setsynced") || has("setsyncednil") {
-					return c + where
-				}
-			case "SetBirthday":
-				if has("setbirthday") {
-					return c + where
-				}
-			case "Import":
-				if has("impkey") || has("impscript") {
-					return c + where
-				}
-			}
-		}
-		// no known pattern: name the fate class and the write operations
-		set := map[string]bool{}
-		for _, o := range t.Ops {
-			if !isRead(o.K) {
-				set[o.K] = true
-			}
-		}
-		ks := []string{}
-		for k := range set {
-			ks = append(ks, k)
-		}
-		sort.Strings(ks)
-		if len(ks) == 0 {
-			ks = []string{"reads-only"}
-		}
-		return "unexplained:" + strings.TrimPrefix(where, "-in-") + ":" + strings.Join(ks, "+")
-	}
-	aborted := t.Fate != "commit"
-	switch kind {
-	case "account_name":
-		if aborted {
-			return pick("RenameAccount", "NewAccount+cached-read")
-		}
-	case "next_index", "last_address":
-		if aborted {
-			return pick("ExtendAddresses", "NewAccount+cached-read")
-		}
-		return pick("NextAddresses+ExtendAddresses")
-	case "phantom_address":
-		if aborted {
-			return pick("ExtendAddresses", "NextAddresses")
-		}
-	case "phantom_imported_address":
-		if aborted {
-			return pick("Import")
-		}
-	case "account_existence", "account_kind":
-		if aborted {
-			return pick("NewAccount+cached-read")
-		}
-	case "synced_to":
-		if aborted {
-			return pick("SetSyncedTo")
-		}
-		// SetSyncedTo(nil) copies the in-memory start block, whose time
-		// stamp is not what the database holds
-		if has("setsyncednil") {
-			return "SetSyncedTo(nil)" + where
-		}
-	case "birthday":
-		if aborted {
-			return pick("SetBirthday")
-		}
-	}
-	return pick()
-}
-
-func runHistory(e *env, in input) (*caseOut, error) {
-	w, err := newWorld(in.Scope)
-	if err != nil {
-		return nil, err
-	}
-	path := filepath.Join(e.dir, "run.db")
-	img := e.base[0]
-	if in.Wallet {
-		img = e.base[1]
-	}
-	if err := os.WriteFile(path, img, 0600); err != nil {
-		return nil, err
-	}
-	var r *inst
-	if in.Wallet {
-		r, err = openWallet(path, w.scope)
-	} else {
-		r, err = openInst(path, w.scope, true)
-	}
-	if err != nil {
-		return nil, err
-	}
-	defer func() { r.close(); os.Remove(path) }()
-	rn := &runner{e: e, w: w, r: r, heights: map[int32]bool{0: true}, names: 2, seenDiv: map[string]bool{}, subjSite: map[string]string{}, phantomSite: map[string]string{}}
-	out := &caseOut{In: in, Oracle: []string{}, Findings: []finding{}, Tags: []string{}}
-
-	// initial state, as the implementation reports it
-	bs := r.mgr.SyncedTo()
-	out.Obs.Init = initObs{H: bs.Height, T: bs.Timestamp.Unix(), Birthday: r.mgr.Birthday().Unix(), Sch: w.schema()}
-	if hashID(bs.Hash) != 0 {
-		return nil, fmt.Errorf("initial synced-to is not the genesis block")
-	}
-
-	record := func(txi int, t *txIn, qas []qa) {
-		for _, e := range qas {
-			if e.F == nil {
-				continue
-			}
-			for _, k := range divKinds(e.Q, e.R, *e.F) {
-				qk, _ := json.Marshal(e.Q)
-				id := k + "|" + string(qk)
-				// a divergence is attributed to the first transaction after which
-				// this (kind, query) pair differs
-				if rn.seenDiv[id] {
-					continue
-				}
-				rn.seenDiv[id] = true
-				kind := "mem_disk_divergence:" + k
-				site := siteOf(k, t)
-				// a later symptom on a subject (account, address, sync state)
-				// that already diverged at a named site is a consequence of
-				// that divergence, not a new one
-				subj := subjectOf(e.Q)
-				// a phantom address may be probed for the first time long after
-				// the rolled-back transaction that left it in the cache
-				if k == "phantom_address" || k == "phantom_imported_address" {
-					if s0, ok := rn.phantomSite[fmt.Sprint(e.Q.Addr)]; ok {
-						site = s0
-					}
-				}
-				if strings.HasPrefix(site, "unexplained:") {
-					if s0, ok := rn.subjSite[subj]; ok {
-						site = s0
-					}
-				} else if _, ok := rn.subjSite[subj]; !ok {
-					rn.subjSite[subj] = site
-				}
-				tag := kind + "@" + site
-				dup := false
-				for _, o := range out.Oracle {
-					if o == tag {
-						dup = true
-					}
-				}
-				if !dup {
-					out.Oracle = append(out.Oracle, tag)
-					out.Findings = append(out.Findings, finding{Kind: kind, Site: site, Tx: txi, Q: e.Q, R: e.R, F: *e.F})
-				}
-			}
-		}
-	}
-
-	q0, _, err := rn.boundary()
-	if err != nil {
-		return nil, err
-	}
-	out.Obs.Q0 = q0
-	record(-1, nil, q0)
-
-	for ti := range in.Txs {
-		t := &in.Txs[ti]
-		to := txObs{Outs: []answer{}}
-		for _, o := range t.Ops {
-			if o.K == "setsynced" {
-				rn.heights[o.H] = true
-				if o.H > waddrmgr.MaxReorgDepth {
-					rn.heights[o.H-waddrmgr.MaxReorgDepth] = true
-				}
-				if o.H > 0 {
-					rn.heights[o.H-1] = true
-				}
-			}
-			if (o.K == "newacct" || o.K == "newacctwo" || o.K == "rename" || o.K == "lookupname") && o.Name > rn.names {
-				rn.names = o.Name
-			}
-		}
-		if in.Wallet {
-			// one issuance per transaction, performed (and committed or rolled
-			// back) by the wallet itself
-			if len(t.Ops) != 1 || t.Ops[0].K != "next" || t.Ops[0].N != 1 ||
-				(t.Fate == "dryrun") != (t.Ops[0].Via == "createtxdry") || (t.Fate != "commit" && t.Fate != "dryrun") {
-				return nil, fmt.Errorf("transaction %d: not a wallet-mode transaction", ti)
-			}
-			before := r.db.Commits
-			a := r.walletCall(w, t.Ops[0])
-			to.Outs = append(to.Outs, a)
-			committed := r.db.Commits > before
-			if committed != (t.Fate == "commit") && a.K == "addrs" {
-				return nil, fmt.Errorf("transaction %d: fate %q but the wallet committed=%v", ti, t.Fate, committed)
-			}
-			if t.Fate == "dryrun" {
-				to.Err = "dryrun"
-			}
-			if ti == 0 && a.K == "addrs" {
-				ad, err := w.addrOf(a.Addrs[0])
-				if err != nil {
-					return nil, err
-				}
-				if err := r.fund(ad); err != nil {
-					return nil, err
-				}
-			}
-			if t.Fate == "commit" && a.K == "addrs" {
-				rn.issued = append(rn.issued, a.Addrs...)
-			}
-			if t.Fate != "commit" && a.K == "addrs" {
-				for _, ref := range a.Addrs {
-					k := fmt.Sprint(ref)
-					if _, ok := rn.phantomSite[k]; !ok {
-						rn.phantomSite[k] = "NextAddresses-in-aborted-tx"
-					}
-				}
-			}
-			qas, _, err := rn.boundary()
-			if err != nil {
-				return nil, err
-			}
-			to.Q = qas
-			record(ti, t, qas)
-			out.Obs.Txs = append(out.Obs.Txs, to)
-			continue
-		}
-		if t.Fate == "failcommit" {
-			r.db.FailNextCommit()
-		}
-		uerr := walletdb.Update(r.db, func(tx walletdb.ReadWriteTx) error {
-			ns := tx.ReadWriteBucket(nsKey)
-			for _, o := range t.Ops {
-				to.Outs = append(to.Outs, apply(w, r, ns, ns, o))
-			}
-			switch t.Fate {
-			case "abort":
-				return abortdb.ErrCallerAbort
-			case "dryrun":
-				return walletdb.ErrDryRunRollBack
-			}
-			return nil
-		})
-		switch {
-		case uerr == nil:
-			to.Err = ""
-		case errors.Is(uerr, abortdb.ErrCallerAbort):
-			to.Err = "abort"
-		case errors.Is(uerr, walletdb.ErrDryRunRollBack):
-			to.Err = "dryrun"
-		case errors.Is(uerr, abortdb.ErrCommitFailed):
-			to.Err = "failcommit"
-		default:
-			to.Err = "other:" + uerr.Error()
-		}
-		want := map[string]string{"commit": "", "abort": "abort", "dryrun": "dryrun", "failcommit": "failcommit"}[t.Fate]
-		if to.Err != want {
-			return nil, fmt.Errorf("transaction %d: fate %q but Update returned %q", ti, t.Fate, to.Err)
-		}
-		if t.Fate == "commit" {
-			for i, o := range t.Ops {
-				if o.K == "next" && to.Outs[i].K == "addrs" {
-					rn.issued = append(rn.issued, to.Outs[i].Addrs...)
-				}
-			}
-		} else {
-			note := func(ref []uint32, site string) {
-				k := fmt.Sprint(ref)
-				if _, ok := rn.phantomSite[k]; !ok {
-					rn.phantomSite[k] = site
-				}
-			}
-			for i, o := range t.Ops {
-				switch {
-				case o.K == "next" && to.Outs[i].K == "addrs":
-					for _, ref := range to.Outs[i].Addrs {
-						if readBackCached {
-							note(ref, "NextAddresses-in-aborted-tx")
-						} else {
-							// only an explicit lookup before the rollback caches it
-							note(ref, "NextAddresses+Address-in-aborted-tx")
-						}
-					}
-				case o.K == "extend" && to.Outs[i].K == "ok":
-					b := uint32(0)
-					if o.Int {
-						b = 1
-					}
-					for idx := uint32(0); idx <= o.N && idx < maxIdx; idx++ {
-						note([]uint32{0, o.Acct, b, idx}, "ExtendAddresses-in-aborted-tx")
-					}
-				case (o.K == "impkey" || o.K == "impscript") && to.Outs[i].K == "addrs":
-					for _, ref := range to.Outs[i].Addrs {
-						note(ref, "Import-in-aborted-tx")
-					}
-				}
-			}
-		}
-		qas, _, err := rn.boundary()
-		if err != nil {
-			return nil, err
-		}
-		to.Q = qas
-		record(ti, t, qas)
-		out.Obs.Txs = append(out.Obs.Txs, to)
-	}
-	out.Tags = tagsOf(in, out)
-	return out, nil
-}
-
-// readBackCached says whether the implementation under test puts the address
-// nextAddresses reads back into the cache before commit (finding S4); it is
-// measured once at start-up on a scratch database (probeReadBack) and only
-// steers tags and site names - the Coq side takes the same fact from
-// coq/Generated/AddrCache.v.
-var readBackCached = true
-
-func probeReadBack(e *env) (bool, error) {
-	w, err := newWorld(84)
-	if err != nil {
-		return false, err
-	}
-	path := filepath.Join(e.dir, "probe.db")
-	if err := os.WriteFile(path, e.base[0], 0600); err != nil {
-		return false, err
-	}
-	r, err := openInst(path, w.scope, true)
-	if err != nil {
-		return false, err
-	}
-	defer func() { r.close(); os.Remove(path) }()
-	var issued btcutil.Address
-	uerr := walletdb.Update(r.db, func(tx walletdb.ReadWriteTx) error {
-		ns := tx.ReadWriteBucket(nsKey)
-		mas, err := r.sm.NextInternalAddresses(ns, 0, 1)
-		if err != nil {
-			return err
-		}
-		issued = mas[0].Address()
-		return walletdb.ErrDryRunRollBack
-	})
-	if !errors.Is(uerr, walletdb.ErrDryRunRollBack) {
-		return false, fmt.Errorf("probe: %v", uerr)
-	}
-	found := false
-	err = walletdb.View(r.db, func(tx walletdb.ReadTx) error {
-		_, err := r.sm.Address(tx.ReadBucket(nsKey), issued)
-		found = err == nil
-		return nil
-	})
-	return found, err
-}
-
-// extendWOPanics says whether ExtendAddresses on an imported account panics
-// while the manager is unlocked (finding S3: inverted watch-only test, nil
-// private key dereferenced).  The model transcribes the panic; if the source
-// stops panicking the generator stops extending imported accounts (the model
-// would then have to follow) and says so in a tag.
-var extendWOPanics = true
-
-func probeExtendWO(e *env) (bool, error) {
-	w, err := newWorld(84)
-	if err != nil {
-		return false, err
-	}
-	path := filepath.Join(e.dir, "probe2.db")
-	if err := os.WriteFile(path, e.base[0], 0600); err != nil {
-		return false, err
-	}
-	r, err := openInst(path, w.scope, true)
-	if err != nil {
-		return false, err
-	}
-	defer func() { r.close(); os.Remove(path) }()
-	var a1, a2 answer
-	uerr := walletdb.Update(r.db, func(tx walletdb.ReadWriteTx) error {
-		ns := tx.ReadWriteBucket(nsKey)
-		a1 = apply(w, r, ns, ns, op{K: "newacctwo", Name: 5, Key: 0, Fp: 7})
-		a2 = apply(w, r, ns, ns, op{K: "extend", Acct: a1.Acct, N: 2})
-		return abortdb.ErrCallerAbort
-	})
-	if !errors.Is(uerr, abortdb.ErrCallerAbort) || a1.K != "acct" {
-		return false, fmt.Errorf("probe extend: %v %v", uerr, a1)
-	}
-	return a2.K == "err" && a2.Err == "panic", nil
-}
-
-// ---------------------------------------------------------------- K (tags only)
-
-// inK mirrors the decidable trigger pattern of coq/Addr/MemDisk.v (in_K): an
-// aborted transaction containing an eagerly cached write, or a freshly created
-// account read back before the abort; a committed transaction extending a
-// branch after issuing from it.  Used for tags only - the Coq side decides.
-func txInK(t txIn) bool {
-	if t.Fate == "commit" {
-		seen := map[[2]uint32]bool{}
-		for _, o := range t.Ops {
-			b := uint32(0)
-			if o.Int {
-				b = 1
-			}
-			if o.K == "next" {
-				seen[[2]uint32{o.Acct, b}] = true
-			}
-			if o.K == "extend" && seen[[2]uint32{o.Acct, b}] {
-				return true
-			}
-			if o.K == "setsyncednil" {
-				return true
-			}
-		}
-		return false
-	}
-	armed, issued := false, false
-	for _, o := range t.Ops {
-		switch o.K {
-		case "rename", "extend", "setsynced", "setsyncednil", "setbirthday", "impkey", "impscript":
-			return true
-		case "next":
-			if readBackCached || armed {
-				return true
-			}
-			issued = true
-		case "newacct", "newacctwo":
-			armed = true
-		case "lookup":
-			if armed || issued {
-				return true
-			}
-		case "props", "last":
-			if armed {
-				return true
-			}
-		}
-	}
-	return false
-}
-
-func tagsOf(in input, out *caseOut) []string {
-	set := map[string]bool{}
-	set[fmt.Sprintf("scope_%d", in.Scope)] = true
-	set[fmt.Sprintf("read_back_cached_%v", readBackCached)] = true
-	if !extendWOPanics {
-		set["extend_on_imported_account_no_longer_panics_model_outdated"] = true
-	}
-	k := false
-	onlyIssueAborted := true
-	anyAbortedIssue := false
-	for _, t := range in.Txs {
-		set["fate_"+t.Fate] = true
-		set[fmt.Sprintf("ops_per_tx_%d", len(t.Ops))] = true
-		for _, o := range t.Ops {
-			set["op_"+o.K] = true
-			if t.Fate != "commit" {
-				set["aborted_"+o.K] = true
-				if o.K == "next" {
-					anyAbortedIssue = true
-				} else if !isRead(o.K) {
-					onlyIssueAborted = false
-				}
-			}
-		}
-		if txInK(t) {
-			k = true
-		}
-	}
-	if k {
-		set["in_K"] = true
-	} else {
-		set["outside_K"] = true
-	}
-	if anyAbortedIssue && onlyIssueAborted {
-		set["dry_run_issuance_only"] = true
-	}
-	if len(out.Oracle) > 0 {
-		set["diverged"] = true
-	}
-	tags := []string{}
-	for t := range set {
-		tags = append(tags, t)
-	}
-	sort.Strings(tags)
-	return tags
-}
-
-// ---------------------------------------------------------------- generator
-
-// genHistory draws a history.  The generator keeps a rough picture of the
-// committed state (accounts, next indices) only to aim its choices; nothing
-// depends on that picture being exact.
-func genHistory(r *gen.R, tier string) input {
-	in := input{Scope: 84}
-	if r.Chance(1, 3) {
-		in.Scope = 44
-	}
-	// mode: 0 wild, 1 only issuance (and reads) inside aborted transactions -
-	// the dry-run scenario the property names, 2 clean: aborted transactions
-	// hold only operations without eager memory updates
-	mode := r.Pick(5, 3, 3)
-	// half of the histories import xpub accounts (NewAccountWatchingOnly).  In
-	// those, a rolled-back transaction never reads an account it has just
-	// created: a later account could then reuse the number with another key,
-	// and the model identifies a chained address with (account, branch, index)
-	wo := r.Chance(1, 2)
-	woAccts := map[uint32]bool{}
-	// every xpub is imported at most once per history (the same key under two
-	// account numbers would give both accounts the same addresses)
-	freeKeys := r.Perm(nXpubs)
-	ntx := r.Range(3, 8)
-	if tier == "thorough" {
-		ntx = r.Range(3, 12)
-	}
-	accts := uint32(1) // committed accounts 0..accts-1
-	nextIdx := map[[2]uint32]uint32{}
-	nameCtr := 3
-	height := int32(0)
-	if r.Chance(1, 6) {
-		height = waddrmgr.MaxReorgDepth - int32(r.Range(0, 2))
-	}
-	hashCtr := 1
-	var issued [][]uint32
-	pickAcct := func() uint32 {
-		if r.Chance(1, 12) {
-			return accts // does not exist (yet)
-		}
-		return uint32(r.Intn(int(accts)))
-	}
-	pickAddr := func() []uint32 {
-		switch r.Pick(5, 3, 1, 1) {
-		case 0:
-			if len(issued) > 0 {
-				return issued[r.Intn(len(issued))]
-			}
-			fallthrough
-		case 1:
-			a := uint32(r.Intn(int(accts)))
-			b := uint32(r.Intn(2))
-			return []uint32{0, a, b, nextIdx[[2]uint32{a, b}] + uint32(r.Range(0, 2))}
-		case 2:
-			return []uint32{1, uint32(r.Intn(nKeys)), 0, 0}
-		}
-		return []uint32{2, uint32(r.Intn(nScripts)), 0, 0}
-	}
-	readOp := func() op {
-		switch r.Pick(4, 2, 3, 1, 1, 1, 1, 1) {
-		case 0:
-			return op{K: "lookup", Addr: pickAddr()}
-		case 1:
-			return op{K: "last", Acct: pickAcct(), Int: r.Chance(1, 2)}
-		case 2:
-			return op{K: "props", Acct: pickAcct()}
-		case 3:
-			return op{K: "lookupname", Name: r.Range(2, nameCtr)}
-		case 4:
-			return op{K: "acctname", Acct: pickAcct()}
-		case 5:
-			return op{K: "synced"}
-		case 6:
-			return op{K: "blockhash", H: height}
-		}
-		return op{K: "bdayblock"}
-	}
-	for ti := 0; ti < ntx; ti++ {
-		t := txIn{Fate: []string{"commit", "abort", "dryrun", "failcommit"}[r.Pick(10, 4, 3, 4)]}
-		aborted := t.Fate != "commit"
-		nops := r.Pick(0, 5, 3, 2)
-		type pend struct {
-			a, b, next uint32
-		}
-		var bump []pend
-		newAccts := uint32(0)
-		newWO := map[uint32]bool{}
-		sawNew := false
-		for oi := 0; oi < nops; oi++ {
-			var o op
-			kind := r.Pick(24, 6, 8, 9, 8, 9, 1, 3, 3, 4, 3, 18)
-			if aborted && mode == 1 {
-				kind = []int{0, 0, 0, 11}[r.Intn(4)]
-			}
-			if aborted && mode == 2 {
-				kind = []int{2, 4, 8, 11, 11}[r.Intn(5)]
-			}
-			if wo && aborted && sawNew {
-				kind = []int{4, 8, 12, 12}[r.Intn(4)]
-			}
-			switch kind {
-			case 0:
-				a := pickAcct()
-				b := r.Chance(2, 5)
-				o = op{K: "next", Acct: a, Int: b, N: uint32(r.Pick(0, 6, 3, 1))}
-				bi := uint32(0)
-				if b {
-					bi = 1
-				}
-				if a < accts {
-					k := [2]uint32{a, bi}
-					if t.Fate == "commit" {
-						for i := uint32(0); i < o.N; i++ {
-							issued = append(issued, []uint32{0, a, bi, nextIdx[k] + i})
-						}
-					}
-					bump = append(bump, pend{a, bi, nextIdx[k] + o.N})
-				}
-			case 1:
-				a := pickAcct()
-				b := r.Chance(2, 5)
-				bi := uint32(0)
-				if b {
-					bi = 1
-				}
-				k := [2]uint32{a, bi}
-				last := nextIdx[k] + uint32(r.Range(0, 5))
-				if r.Chance(1, 6) && nextIdx[k] > 0 {
-					last = nextIdx[k] - 1 // nothing to do
-				}
-				if (woAccts[a] || newWO[a]) && !extendWOPanics {
-					a = 0 // the model transcribes the panic of the pinned code only
-					k = [2]uint32{a, bi}
-					last = nextIdx[k] + uint32(r.Range(0, 5))
-				}
-				o = op{K: "extend", Acct: a, Int: b, N: last}
-				if a < accts && last >= nextIdx[k] && !woAccts[a] {
-					bump = append(bump, pend{a, bi, last + 1})
-				}
-			case 2:
-				nm := nameCtr
-				nameCtr++
-				switch r.Pick(12, 1, 1, 1) {
-				case 1:
-					nm = 0
-				case 2:
-					nm = 1
-				case 3:
-					nm = r.Range(2, nameCtr-1)
-				}
-				o = op{K: "newacct", Name: nm}
-				sawNew = true
-				if wo && len(freeKeys) > 0 && r.Chance(1, 2) {
-					key := freeKeys[0]
-					freeKeys = freeKeys[1:]
-					o = op{K: "newacctwo", Name: nm, Key: key,
-						Fp: []uint32{0, 0x11223344, 7}[r.Intn(3)]}
-					switch r.Pick(3, 2, 1, 1, 1) {
-					case 1:
-						o.Sch = []uint32{3, 4} // BIP0049Plus
-					case 2:
-						o.Sch = []uint32{0, 0}
-					case 3:
-						o.Sch = []uint32{4, 4}
-					case 4:
-						o.Sch = []uint32{3, 3}
-					}
-				}
-				if nm >= 3 && accts+newAccts < maxAcct-2 {
-					if o.K == "newacctwo" {
-						newWO[accts+newAccts] = true
-					}
-					newAccts++
-				}
-			case 3:
-				nm := nameCtr
-				nameCtr++
-				switch r.Pick(12, 1, 1, 2) {
-				case 1:
-					nm = 0
-				case 2:
-					nm = 1
-				case 3:
-					nm = r.Range(2, nameCtr-1)
-				}
-				a := pickAcct()
-				if r.Chance(1, 25) {
-					a = importedAcct
-				}
-				o = op{K: "rename", Acct: a, Name: nm}
-			case 4:
-				o = op{K: "markused", Addr: pickAddr()}
-			case 5:
-				switch r.Pick(6, 2, 1) {
-				case 0:
-					height++
-				case 1:
-					if height > 0 {
-						height -= int32(r.Range(0, 2))
-					}
-				case 2:
-					height += int32(r.Range(2, 3)) // a gap
-				}
-				o = op{K: "setsynced", H: height, Hash: hashCtr, T: 1600000000 + int64(hashCtr)*600}
-				hashCtr++
-			case 6:
-				o = op{K: "setsyncednil"}
-			case 7:
-				o = op{K: "setbirthday", T: 1500000000 + int64(r.Range(0, 1000))*3600}
-			case 8:
-				o = op{K: "setbdayblock", H: int32(r.Range(0, int(height)+1)), Hash: hashCtr, T: 1600000000 + int64(hashCtr)*600, Ver: r.Chance(1, 2)}
-				hashCtr++
-			case 9:
-				o = op{K: "impkey", Key: r.Intn(nKeys), Priv: r.Chance(1, 2), H: int32(r.Range(0, 5)), Hash: hashCtr, T: 1600000000}
-				if !o.Priv && r.Chance(1, 3) {
-					o.Hash = -1 // nil block stamp
-					o.H = 0
-				} else {
-					hashCtr++
-				}
-				if r.Chance(1, 8) {
-					o.H = -1 // below the start block: the start block moves
-				}
-			case 10:
-				o = op{K: "impscript", Key: r.Intn(nScripts), H: int32(r.Range(0, 5)), Hash: hashCtr, T: 1600000000}
-				hashCtr++
-				if r.Chance(1, 8) {
-					o.H = -1
-				}
-			case 12:
-				// a read that loads nothing into the caches
-				switch r.Pick(1, 1, 1, 1, 1) {
-				case 0:
-					o = op{K: "lookupname", Name: r.Range(2, nameCtr)}
-				case 1:
-					o = op{K: "acctname", Acct: pickAcct()}
-				case 2:
-					o = op{K: "synced"}
-				case 3:
-					o = op{K: "blockhash", H: height}
-				default:
-					o = op{K: "bdayblock"}
-				}
-			default:
-				o = readOp()
-			}
-			t.Ops = append(t.Ops, o)
-		}
-		if t.Fate == "commit" {
-			for _, p := range bump {
-				nextIdx[[2]uint32{p.a, p.b}] = p.next
-			}
-			for n := range newWO {
-				woAccts[n] = true
-			}
-			accts += newAccts
-		}
-		in.Txs = append(in.Txs, t)
-	}
-	return in
-}
-
-// genWalletHistory draws a wallet-mode history: NewAddress first (the funded
-// address), then issuance through NewAddress / NewChangeAddress /
-// CreateSimpleTx, with CreateSimpleTx(dryRun=true) in between.
-func genWalletHistory(r *gen.R) input {
-	in := input{Scope: 84, Wallet: true}
-	in.Txs = append(in.Txs, txIn{Fate: "commit", Ops: []op{{K: "next", Acct: 0, N: 1, Via: "newaddress"}}})
-	n := r.Range(3, 7)
-	for i := 0; i < n; i++ {
-		switch r.Pick(4, 2, 2, 1) {
-		case 0:
-			in.Txs = append(in.Txs, txIn{Fate: "dryrun", Ops: []op{{K: "next", Acct: 0, Int: true, N: 1, Via: "createtxdry"}}})
-		case 1:
-			in.Txs = append(in.Txs, txIn{Fate: "commit", Ops: []op{{K: "next", Acct: 0, Int: true, N: 1, Via: "createtx"}}})
-		case 2:
-			in.Txs = append(in.Txs, txIn{Fate: "commit", Ops: []op{{K: "next", Acct: 0, Int: true, N: 1, Via: "newchange"}}})
-		default:
-			in.Txs = append(in.Txs, txIn{Fate: "commit", Ops: []op{{K: "next", Acct: 0, N: 1, Via: "newaddress"}}})
-		}
-	}
-	return in
-}
-
-// systematic returns the fixed histories run before the random ones: every
-// eager update inside every kind of aborted transaction, the dry-run
-// issuance scenario, and the same-transaction patterns.
-func systematic() []input {
-	var out []input
-	ab := []string{"abort", "dryrun", "failcommit"}
-	writes := []op{
-		{K: "next", Acct: 0, N: 2},
-		{K: "next", Acct: 0, Int: true, N: 1},
-		{K: "extend", Acct: 0, N: 4},
-		{K: "rename", Acct: 0, Name: 7},
-		{K: "newacct", Name: 8},
-		{K: "markused", Addr: []uint32{0, 0, 0, 0}},
-		{K: "setsynced", H: 1, Hash: 5, T: 1600000600},
-		{K: "setsyncednil"},
-		{K: "setbirthday", T: 1500003600},
-		{K: "setbdayblock", H: 0, Hash: 6, T: 1600000700, Ver: true},
-		{K: "impkey", Key: 0, Hash: -1},
-		{K: "impkey", Key: 1, Priv: true, H: -1, Hash: 9, T: 1600000000},
-		{K: "impscript", Key: 0, H: 2, Hash: 7, T: 1600000000},
-	}
-	warm := txIn{Fate: "commit", Ops: []op{{K: "next", Acct: 0, N: 1}, {K: "next", Acct: 0, Int: true, N: 1}}}
-	for _, f := range ab {
-		for _, wop := range writes {
-			for _, warmed := range []bool{false, true} {
-				h := input{Scope: 84}
-				if warmed {
-					h.Txs = append(h.Txs, warm)
-				}
-				h.Txs = append(h.Txs, txIn{Fate: f, Ops: []op{wop}})
-				// the next committed request
-				h.Txs = append(h.Txs, txIn{Fate: "commit", Ops: []op{{K: "next", Acct: 0, N: 1}, {K: "next", Acct: 0, Int: true, N: 1}}})
-				out = append(out, h)
-			}
-		}
-	}
-	// imported xpub accounts (NewAccountWatchingOnly): created, cached, used,
-	// renamed, extended; with and without schema override / fingerprint
-	for _, imp := range []op{
-		{K: "newacctwo", Name: 5, Key: 0, Fp: 0x11223344, Sch: []uint32{3, 4}},
-		{K: "newacctwo", Name: 5, Key: 1, Fp: 0},
-		{K: "newacctwo", Name: 5, Key: 2, Fp: 7, Sch: []uint32{0, 0}},
-	} {
-		for _, scope := range []uint32{84, 44} {
-			use := txIn{Fate: "commit", Ops: []op{{K: "props", Acct: 1}, {K: "next", Acct: 1, N: 2}, {K: "next", Acct: 1, Int: true, N: 1}}}
-			out = append(out,
-				// the imported account is cached, then renamed in a COMMITTED transaction
-				input{Scope: scope, Txs: []txIn{{Fate: "commit", Ops: []op{imp}}, use,
-					{Fate: "commit", Ops: []op{{K: "rename", Acct: 1, Name: 6}}},
-					{Fate: "commit", Ops: []op{{K: "next", Acct: 1, N: 1}, {K: "markused", Addr: []uint32{0, 1, 0, 0}}}}}},
-				// renamed without having been cached; renamed in rolled-back transactions
-				input{Scope: scope, Txs: []txIn{{Fate: "commit", Ops: []op{imp, {K: "rename", Acct: 1, Name: 6}}},
-					{Fate: "failcommit", Ops: []op{{K: "rename", Acct: 1, Name: 7}}},
-					{Fate: "commit", Ops: []op{{K: "rename", Acct: 1, Name: 8}, {K: "lookupname", Name: 6}}}}},
-				// issuance from it in rolled-back transactions; a default account after it
-				input{Scope: scope, Txs: []txIn{{Fate: "commit", Ops: []op{imp}},
-					{Fate: "dryrun", Ops: []op{{K: "next", Acct: 1, Int: true, N: 2}}},
-					{Fate: "commit", Ops: []op{{K: "newacct", Name: 9}, {K: "next", Acct: 1, Int: true, N: 1}, {K: "next", Acct: 2, N: 1}}},
-					{Fate: "abort", Ops: []op{{K: "markused", Addr: []uint32{0, 1, 1, 0}}, {K: "lookup", Addr: []uint32{0, 1, 1, 0}}}}}},
-				// its creation rolled back (not read back), the number reused by a default account
-				input{Scope: scope, Txs: []txIn{{Fate: "abort", Ops: []op{imp}},
-					{Fate: "commit", Ops: []op{{K: "newacct", Name: 9}, {K: "next", Acct: 1, N: 1}}},
-					{Fate: "commit", Ops: []op{imp, {K: "next", Acct: 2, N: 1}}}}},
-			)
-			if extendWOPanics {
-				out = append(out, input{Scope: scope, Txs: []txIn{{Fate: "commit", Ops: []op{imp}}, use,
-					{Fate: "commit", Ops: []op{{K: "extend", Acct: 1, N: 5}, {K: "extend", Acct: 1, N: 0}}},
-					{Fate: "commit", Ops: []op{{K: "next", Acct: 1, N: 1}}}}})
-			}
-		}
-	}
-	// same-transaction patterns
-	out = append(out,
-		input{Scope: 84, Txs: []txIn{{Fate: "commit", Ops: []op{{K: "next", Acct: 0, N: 1}, {K: "extend", Acct: 0, N: 4}}},
-			{Fate: "commit", Ops: []op{{K: "next", Acct: 0, N: 1}}}}},
-		input{Scope: 84, Txs: []txIn{{Fate: "commit", Ops: []op{{K: "extend", Acct: 0, N: 4}, {K: "next", Acct: 0, N: 1}}},
-			{Fate: "commit", Ops: []op{{K: "next", Acct: 0, N: 1}}}}},
-		input{Scope: 84, Txs: []txIn{{Fate: "commit", Ops: []op{{K: "next", Acct: 0, N: 2}, {K: "next", Acct: 0, N: 1}}},
-			{Fate: "commit", Ops: []op{{K: "next", Acct: 0, N: 1}}}}},
-		input{Scope: 44, Txs: []txIn{{Fate: "abort", Ops: []op{{K: "newacct", Name: 5}, {K: "props", Acct: 1}}},
-			{Fate: "commit", Ops: []op{{K: "newacct", Name: 6}}}}},
-		input{Scope: 44, Txs: []txIn{{Fate: "abort", Ops: []op{{K: "newacct", Name: 5}, {K: "next", Acct: 1, N: 1}}},
-			{Fate: "commit", Ops: []op{{K: "newacct", Name: 6}, {K: "next", Acct: 1, N: 1}}}}},
-		input{Scope: 44, Txs: []txIn{{Fate: "abort", Ops: []op{{K: "impkey", Key: 0, Hash: -1}}},
-			{Fate: "commit", Ops: []op{{K: "impkey", Key: 0, Hash: -1}}}}},
-		input{Scope: 84, Txs: []txIn{{Fate: "dryrun", Ops: []op{{K: "next", Acct: 0, Int: true, N: 1}, {K: "lookup", Addr: []uint32{0, 0, 1, 0}}}},
-			{Fate: "commit", Ops: []op{{K: "next", Acct: 0, Int: true, N: 1}}}}},
-		input{Scope: 84, Txs: []txIn{{Fate: "commit", Ops: []op{{K: "next", Acct: 0, N: 1}}},
-			{Fate: "commit", Ops: []op{{K: "markused", Addr: []uint32{0, 0, 0, 0}}, {K: "lookup", Addr: []uint32{0, 0, 0, 0}}}},
-			{Fate: "abort", Ops: []op{{K: "markused", Addr: []uint32{0, 0, 0, 1}}, {K: "lookup", Addr: []uint32{0, 0, 0, 0}}}}}},
-	)
-	return out
-}
-
-func main() {
-	core.Main("c08", nil, func(c *core.Common, out *core.Emitter) error {
-		// wallet.Create/Open use the default scrypt parameters (N=2^18);
-		// the harness replaces the key generator by a fast one
-		waddrmgr.SetSecretKeyGen(func(pass *[]byte, _ *waddrmgr.ScryptOptions) (*snacl.SecretKey, error) {
-			return snacl.NewSecretKey(pass, 16, 8, 1)
-		})
-		e, err := newEnv()
-		if err != nil {
-			return err
-		}
-		defer os.RemoveAll(e.dir)
-		readBackCached, err = probeReadBack(e)
-		if err != nil {
-			return err
-		}
-		extendWOPanics, err = probeExtendWO(e)
-		if err != nil {
-			return err
-		}
-		runOne := func(in input, extra ...string) error {
-			co, err := runHistory(e, in)
-			if err != nil {
-				return err
-			}
-			co.Tags = append(co.Tags, extra...)
-			out.Emit(co)
-			return nil
-		}
-		if c.Replay != "" {
-			return core.ReadReplay(c.Replay, func(raw json.RawMessage) error {
-				var cs struct {
-					In input `json:"in"`
-				}
-				if err := json.Unmarshal(raw, &cs); err != nil {
-					return err
-				}
-				return runOne(cs.In, "replay")
-			})
-		}
-		for _, h := range systematic() {
-			if err := runOne(h, "systematic"); err != nil {
-				return err
-			}
-		}
-		// the full-wallet path: wallet.CreateSimpleTx(dryRun) and friends
-		rw := gen.New(c.Seed, 88)
-		nw := 12
-		if c.Tier == "thorough" {
-			nw = 150
-		}
-		for i := 0; i < nw; i++ {
-			if err := runOne(genWalletHistory(rw), "wallet_api"); err != nil {
-				return err
-			}
-		}
-		r := gen.New(c.Seed, 8)
-		for i := 0; i < c.N; i++ {
-			if err := runOne(genHistory(r, c.Tier), "random"); err != nil {
-				return err
-			}
-		}
-		return nil
-	})
-}
